@@ -40,3 +40,37 @@ Record guard_row := mkGD {
   g_foreign : list (string * string * list Z) }.
 
 Record unrec_row := mkU { u_mod : string; u_what : string }.
+
+(* ---- (7) what the genesis VALIDATION reads (types.GenesisState.Validate / types.ValidateGenesis,
+   run by AppModuleBasic.ValidateGenesis and - liquidity - by InitGenesis itself, which panics on its
+   error).  Written by tools/goextract/emit_genesis_validate.go. *)
+
+(* an entry point that runs the validation: [ve_entry] "InitGenesis" | "ValidateGenesis", the Go
+   function, the validator it calls, what it does with the error ("panic" | "return" | "ignored") *)
+Record val_entry := mkVE {
+  ve_mod : string; ve_entry : string; ve_func : string; ve_validator : string; ve_reaction : string }.
+
+(* a collection of the genesis state the validation ranges over: path "<Kind>.<Field>", kind of its
+   items, and the collection the loop is nested in ("" at top level) *)
+Record val_coll := mkVC { vc_mod : string; vc_coll : string; vc_kind : string; vc_parent : string }.
+
+(* an item validator `x.Validate()` (a method without parameters: a condition over x alone), called
+   inside the loop over [vi_coll] on the record / field [vi_path] *)
+Record val_item := mkVI { vi_mod : string; vi_coll : string; vi_path : string; vi_callee : string }.
+
+(* a map the validation builds: kind of the records it holds ("" for a duplicate-detection set) and
+   the nesting depth of the map type *)
+Record val_map := mkVM { vm_mod : string; vm_name : string; vm_kind : string; vm_depth : Z }.
+
+(* one access of such a map inside the loop over [vx_coll]: the map, the kind of record it holds,
+   the kind of the record whose field(s) form the key, where that record came from ("item:<coll>" the
+   item of the loop, "map:<name>" fetched from another map, "root"), the key field(s), and the access:
+   "populate" m[k] = record | "exists" _, ok := m[k] | "fetch" v := m[k] | "fetch-checked" v, ok := m[k]
+   | "inner" / "init-inner" / "insert" for the nested duplicate sets *)
+Record val_xref := mkVX {
+  vx_mod : string; vx_coll : string; vx_map : string; vx_kind : string; vx_owner : string; vx_from : string;
+  vx_keys : list string; vx_how : string }.
+
+(* a condition of the validation and the fields it compares: "reject" `if c { return error }`,
+   "guard" `if c { ...more checks... }`, "switch" *)
+Record val_check := mkVK { vk_mod : string; vk_coll : string; vk_how : string; vk_fields : list string }.
